@@ -711,6 +711,7 @@ fn name_shape(v: &str, at: usize) -> Vec<u8> {
         "plain" => labels(&[b"ns1", b"example", b"net"]),
         "root" => vec![0],
         "upper" => labels(&[b"NS1", b"Example", b"NET"]),
+        "sibling" => labels(&[b"mail", b"example", b"com"]),
         "label63" => labels(&[&l63, b"net"]),
         "long255" => labels(&[&l63, &l63, &l63, &[b'y'; 61]]),
         "toolong256" => labels(&[&l63, &l63, &l63, &[b'y'; 62]]),
@@ -835,6 +836,26 @@ fn build_case(c: &Value) -> Built {
     Built { rec_end: rdata_at + rdlen, msg: m, rdata_at, rdlen, rdata }
 }
 
+/// EDNS options of an OPT RDATA, sorted (independent walker)
+fn opt_options(rd: &[u8]) -> Option<Vec<(u16, Vec<u8>)>> {
+    let mut v = Vec::new();
+    let mut i = 0;
+    while i < rd.len() {
+        if i + 4 > rd.len() {
+            return None;
+        }
+        let code = u16::from_be_bytes([rd[i], rd[i + 1]]);
+        let len = u16::from_be_bytes([rd[i + 2], rd[i + 3]]) as usize;
+        if i + 4 + len > rd.len() {
+            return None;
+        }
+        v.push((code, rd[i + 4..i + 4 + len].to_vec()));
+        i += 4 + len;
+    }
+    v.sort();
+    Some(v)
+}
+
 fn thread_cpu_us() -> u64 {
     let mut ts = libc::timespec { tv_sec: 0, tv_nsec: 0 };
     // SAFETY: plain syscall writing into a local
@@ -861,8 +882,21 @@ fn grammar_case(c: &Value) -> Value {
     let t0 = thread_cpu_us();
     // full message, then the re-encoding fixpoint and the byte-for-byte clause
     let (m_out, m_err, m_val) = outcome_of(catch_unwind(AssertUnwindSafe(|| Message::from_vec(bytes).map_err(|e| e.to_string()))));
-    let mut msg = json!({"out": m_out, "err": m_err, "fix": "n/a", "rdataSame": "n/a", "limits": true, "present": "n/a"});
+    let mut msg = json!({"out": m_out, "err": m_err, "fix": "n/a", "rdataSame": "n/a", "limits": true, "present": "n/a", "types": []});
     if let Some(m1) = m_val {
+        // the decoded type set of the first NSEC / NSEC3 / CSYNC record
+        if let Some(r) = m1.answers.iter().chain(m1.authorities.iter()).chain(m1.additionals.iter()).next() {
+            let ts: Option<Vec<u16>> = match &r.data {
+                RData::DNSSEC(DNSSECRData::NSEC(n)) => Some(n.type_set().iter().map(u16::from).collect()),
+                RData::DNSSEC(DNSSECRData::NSEC3(n)) => Some(n.type_set().iter().map(u16::from).collect()),
+                RData::CSYNC(c) => Some(c.type_bit_maps.iter().map(u16::from).collect()),
+                _ => None,
+            };
+            if let Some(mut ts) = ts {
+                ts.sort_unstable();
+                msg["types"] = json!(ts);
+            }
+        }
         let (l, w) = name_limits(&message_names(&m1));
         msg["limits"] = json!(l <= 63 && w <= 255);
         // is the record under test part of what was decoded (as a record, as EDNS, or as the signature)?
@@ -881,15 +915,21 @@ fn grammar_case(c: &Value) -> Value {
                     }
                 }
                 // the record under test is the first record of the message, in the original and in the re-encoding
+                // (OPT is moved behind the other additional records: looked up by type)
                 if let Some(w2) = walk(&bytes2) {
-                    if let Some((t2, s2, e2, _)) = w2.recs.first() {
-                        if *t2 == code {
-                            msg["rdataSame"] = json!(bytes2[*s2..*e2] == b.rdata[..]);
-                            if bytes2[*s2..*e2] != b.rdata[..] {
-                                msg["reRdata"] = json!(bytes2[*s2..*e2].to_vec());
-                            }
+                    let found = if code == 41 { w2.recs.iter().find(|r| r.0 == 41) } else { w2.recs.first() };
+                    if let Some((t2, s2, e2, _)) = found {
+                        if *t2 == code && code == 41 {
+                            // options as a multiset of (code, value)
+                            let (a, c2) = (opt_options(&b.rdata), opt_options(&bytes2[*s2..*e2]));
+                            msg["rdataSame"] = json!(if a.is_some() && a == c2 { "yes" } else { "no" });
+                        } else if *t2 == code {
+                            msg["rdataSame"] = json!(if bytes2[*s2..*e2] == b.rdata[..] { "yes" } else { "no" });
                         } else {
                             msg["rdataSame"] = json!(format!("first-record-type-{t2}"));
+                        }
+                        if msg["rdataSame"] == "no" {
+                            msg["reRdata"] = json!(bytes2[*s2..*e2].to_vec());
                         }
                     } else {
                         msg["rdataSame"] = json!("no-record");
